@@ -6,10 +6,24 @@
    from the header layouts and the documented EtherType / IP protocol / UDP port tables.
    [agrees r e]: Parse returns an error exactly when the reference reports one, and on success the
    projection (PayloadID, MACs, IPs, ports, presence and start of IPv4/IPv6/UDP/TCP, payload start) is equal. *)
-From PV Require Import Base.Prelude Base.Slice Model.Parse Spec.RFC Model.ParseKnown Proofs.Parse Proofs.ParseRef Proofs.ParseRefEq.
+From PV Require Import Base.Prelude Base.Slice Model.Parse Model.ParseFixes Spec.RFC Model.ParseKnown Proofs.Parse Proofs.ParseRef Proofs.ParseRefEq.
 From Coq Require Import String.
 Open Scope N_scope.
 
+(* ==== The theorem for the code in force =====================================================================
+   Model/ParseFixes.v: current_fixes = mkFixes true true true — IP4.IsValid, IP6.IsValid and TCP.IsValid of /repo are
+   the repaired ones (38ef1da, 28b2fc9, 3443f46), layer_frame.go carries 9ef0c61 and a1ac9f8.  For this code Parse and
+   the reference decoder agree UNCONDITIONALLY: for every well-formed slice (any capacity, any spare contents), every
+   session configuration, bytes < 256, frame shorter than 65536 bytes: same error-or-not, same PayloadID, MACs, IPs,
+   ports, presence/start of the IPv4 / IPv6 / UDP / TCP views, same payload start.  No recorded class is left. *)
+Theorem C02_parse_eq_ref : forall c s,
+  c_fx c = current_fixes ->
+  wf s -> bytes_ok (view s) -> N.of_nat (len s) < 65536 ->
+  agrees (parse c s) (ref_decode (view s)).
+Proof. exact parse_eq_ref_current. Qed.
+Print Assumptions C02_parse_eq_ref.
+
+(* ==== History and the variant machinery (kept: the model still carries the original validators) ============== *)
 (* The full statement "forall c s, wf s -> agrees (parse c s) (ref_decode (view s))" is FALSE for the code
    as it is: one witness per recorded defect class (known_findings.txt, property C02).  The three classes
    of layer_frame.go itself (parse-arp-short, parse-arp-hlen, parse-vlan-short) were repaired by this cluster.
